@@ -282,7 +282,6 @@ fn run_pipeline(m: Materialised) -> PipeResult {
     // the runaway guard: generous (scanning asks the symbolizer about every candidate word)
     let total_mem: u64 = catch(|| dump.get_memory().map(|ml| ml.iter().map(|m| m.size().min(1 << 20)).sum::<u64>()).unwrap_or(0)).unwrap_or(0);
     let nthreads = catch(|| dump.get_stream::<MinidumpThreadList>().map(|t| t.threads.len() as u64).unwrap_or(0)).unwrap_or(0);
-    let limit = (total_mem + 2 * nthreads + 16).saturating_mul(400).min(50_000_000);
     let max_mem: u64 = catch(|| dump.get_memory().map(|ml| ml.iter().map(|m| m.size().min(1 << 24)).max().unwrap_or(0)).unwrap_or(0)).unwrap_or(0);
     // a thread's own stack descriptor counts too (it is used even when the memory lists are unreadable)
     let walk_limit = catch(|| {
@@ -293,6 +292,8 @@ fn run_pipeline(m: Materialised) -> PipeResult {
     })
     .unwrap_or(0)
         + 64;
+    // scanning asks the symbolizer about every candidate word (up to 160 per frame)
+    let limit = walk_limit.saturating_mul(200).saturating_add(10_000).min(200_000_000);
     let provider = Counting { inner: Symbolizer::new(m.supplier), calls: AtomicU64::new(0), limit, walks: AtomicU64::new(0), walk_limit };
     let evil = m.evil.as_deref().map(evil_path);
     let mut subs = PendingProcessorStatSubscriptions::default();
@@ -544,7 +545,7 @@ impl Engine for Process {
     fn generate(&self, tier: Tier, rng: &mut Rng, emit: &mut dyn FnMut(String)) {
         let quick = tier == Tier::Quick;
         // 1. all CPU x OS x option combinations, rich feature sets
-        let rounds = if quick { 2 } else { 12 };
+        let rounds = if quick { 2 } else { 30 };
         for round in 0..rounds {
             for cpu in pg::CPUS {
                 for os in pg::OSES {
@@ -570,7 +571,7 @@ impl Engine for Process {
             }
         }
         // 2. focused streams: well-formed dumps aimed at one mechanism each
-        let n = if quick { 600 } else { 6000 };
+        let n = if quick { 600 } else { 40000 };
         for i in 0..n {
             let cpu = match i % 6 {
                 0 | 1 => "amd64",
@@ -591,7 +592,7 @@ impl Engine for Process {
             emit(render_gen(rng.below(1 << 40), cpu, os, feat, opt, None));
         }
         // 3. mutated repository dumps
-        let n = if quick { 150 } else { 2000 };
+        let n = if quick { 150 } else { 10000 };
         for i in 0..n {
             let name = TESTDATA[i % TESTDATA.len()];
             let k = if i < TESTDATA.len() { 0 } else { rng.range(1, 8) };
